@@ -813,7 +813,9 @@ fn main() {
     if let Some(s) = &stuck_report {
       if s.canary_max_gap_us > cfg.canary_limit_us {
         inconclusive.push("stuck window with unhealthy canary".to_string());
-      } else if s.nudge_released || s.model_enabled {
+      } else if s.parked == Some(false) {
+      inconclusive.push("quiet window with runnable (starved or spinning) threads: not a parked-forever verdict".into());
+    } else if s.nudge_released || s.model_enabled {
         findings.push(Finding {
           rule: "stuck".into(),
           summary: format!("threads stayed blocked although progress was possible: {}", s.reason),
@@ -853,11 +855,12 @@ fn main() {
     for f in findings {
       // C04 claims the disconnect clauses of the broadcast channel, C07 everything
       let c04_rule = matches!(f.rule.as_str(), "premature-disconnected" | "disconnected-before-drained") || f.rule.starts_with("panic-in-");
-      if prop == "C04" && !c04_rule {
+      // C06 claims only the progress clause (a pending / blocked operation that had become possible)
+      if (prop == "C04" && !c04_rule) || (prop == "C06" && f.rule != "stuck") {
         res.count(&format!("other_property_observations/C07|spmc|{}|broadcast", f.rule), 1);
         continue;
       }
-      let sig = format!("{}/spmc/{}/broadcast", if prop == "C04" { "C04" } else { "C07" }, f.rule);
+      let sig = format!("{}/spmc/{}/broadcast", if prop == "C04" { "C04" } else if prop == "C06" { "C06" } else { "C07" }, f.rule);
       let witness = json!({"scenario": scn.describe(), "detail": f.detail, "complete": complete,
         "receivers": metas.iter().map(|m| json!({"handle": m.handle, "start": m.start, "thread": m.thread})).collect::<Vec<_>>(),
         "history": history_json(&evs, 600)});
